@@ -210,6 +210,17 @@ def run(cx):
         cx.check('C12.T1', len(r_) == 1 and r_[0].term in ('AuthLookup::was_empty(arg1)', 'eq(0,Iterator::count(AuthLookup::iter(arg1)))'), ie.path, 'ret', 'is_empty=was_empty', '; '.join(x.term[:100] for x in r_))
 
     # ---------------------------------------------------------------- H helper semantics the guards above rely on (rules/helpers.py)
+    # ---------------------------------------------------------------- G3 the DNSSEC-enabled update path advances the serial
+    # with is_dnssec_enabled the only serial bump of update_records is the one inside secure_zone_mut (G2 counts the call as the
+    # bump): it must happen on every successful pass - whether or not the zone has signing keys - between the NSEC/NSEC3 rebuild and
+    # the signing, never behind a condition
+    sz = cx.fn('C12.G3', 'hickory_server::store::in_memory::inner::InnerInMemory::secure_zone_mut')
+    if sz:
+        inc = cx.calls(sz, r'InnerInMemory::increment_soa_serial$')
+        cx.check('C12.G3', len(inc) == 1, sz.path, 'calls', 'single-serial-increment', f'{len(inc)} increment site(s)', inc[0].loc if inc else '')
+        done_ = [r_ for r_ in cx.returns(sz, r'.') if not re.search(r'from_residual|^Result::Err\(', r_.term)]
+        cx.check('C12.G3', len(done_) >= 1, sz.path, 'ret', 'success-returns-present', str(len(done_)))
+        cx.must_pass('C12.G3', sz, done_, via_blocks={x.bb for x in inc}, what='every-successful-pass-increments-the-serial')
     helpers.check(cx, 'C12.H', ['LowerName::zone_of', 'SerialNumber::partial_cmp'])
 
     # ---------------------------------------------------------------- N1 argument names agree with the parameters they are bound to (engine/argnames.py)
